@@ -2,7 +2,7 @@
    Directives used: those of ExtrOcamlBasic (bool, option, unit, list, prod, sumbool, comparison -> OCaml natives)
    and of ExtrOcamlString (ascii -> char, string -> char list).  nat, positive, N, Z stay extracted inductives. *)
 From Coq Require Import ExtrOcamlBasic ExtrOcamlString.
-From SV Require Import Quote Quote51 QuoteX QuoteMore Bracket Number Expr Parens DiffJson DiffUnified Sched CliModel SortReq.
+From SV Require Import Quote Quote51 QuoteX QuoteMore Bracket Number Expr Parens DiffJson DiffUnified Sched CliModel SortReq CfgSearch Select.
 Extraction Language OCaml.
 Cd "../.cache/ml".
 Separate Extraction
@@ -17,5 +17,6 @@ Separate Extraction
   DiffUnified.apply DiffUnified.merge DiffUnified.view DiffUnified.olds DiffUnified.news
   Sched.find_bad_schedule Sched.run Sched.pending Sched.threads_of Sched.mono_prog
   CliModel.run CliModel.level CliModel.diff_printed
-  SortReq.sort_requires SortReq.str_leb SortReq.groups.
+  SortReq.sort_requires SortReq.str_leb SortReq.groups
+  CfgSearch.run CfgSearch.spec CfgSearch.resolve Select.processed Select.wanted.
 Cd "../../coq".
